@@ -83,8 +83,11 @@ func families(quick bool) []family {
 	ab := func(i int) Sub { return Sub{A: vals[i/2], B: vals[i%2]} }
 	// A: name × every ordered items array of 0..3 elements over (k,v)
 	var a []Doc
-	for _, nm := range vals {
-		for _, s := range seqs(4, 0, 3) {
+	for ni, nm := range vals {
+		for si, s := range seqs(4, 0, 3) {
+			if quick && si%2 != ni {
+				continue // quick tier: names alternate over the arrays instead of name × array
+			}
 			d := Doc{Name: nm}
 			for _, i := range s {
 				d.Items = append(d.Items, kv(i))
@@ -144,8 +147,8 @@ func families(quick bool) []family {
 			if quick && j < i {
 				continue // unordered pairs in the quick tier
 			}
-			if len(e1.ss)+len(e2.ss) > 3 {
-				continue // at most 3 second-level elements per parent
+			if len(e1.ss)+len(e2.ss) > mc3(quick) {
+				continue // at most 2 (quick) / 3 second-level elements per parent
 			}
 			d := Doc{Name: "y", Items: []Item{mkItem(e1), mkItem(e2)}}
 			if (i+j)%3 == 0 {
@@ -155,6 +158,13 @@ func families(quick bool) []family {
 		}
 	}
 	return []family{{"A", a}, {"B", b}, {"C", c}}
+}
+
+func mc3(quick bool) int {
+	if quick {
+		return 2
+	}
+	return 3
 }
 
 // ---------------------------------------------------------------------------------------------
@@ -470,8 +480,6 @@ func buildCorpus(c *corpus, nested bool, layout int) bleve.Index {
 	return idx
 }
 
-type scoreOpt string
-
 func queryJSON(q *Q) json.RawMessage {
 	b, err := json.Marshal(q.ToBleve())
 	if err != nil {
@@ -485,8 +493,8 @@ type checker struct {
 	bk    *book
 	dbgMu sync.Mutex
 	dbg   map[string]int // outcome dump for debugging (C20_DEBUG_OUTCOMES=file)
-	qs    []*Q  // Part Q query family (for minimisation)
-	small []Doc // Part Q documents occupying at most 4 internal documents, smallest first
+	advQ  sync.Map       // query text -> *Q: queries seen deviating under classAdvance
+	small []Doc          // Part Q documents occupying at most 4 internal documents, smallest first
 	// searches in flight, for the hang watchdog
 	flight sync.Map // *inflight -> struct{}
 }
@@ -533,9 +541,11 @@ func (ck *checker) outcome(k string) {
 	}
 }
 
-// symptomClass names a violation of "hits are parents, each once, Total = parents".
+// symptomClass names a violation of "hits are parents, each once, Total = parents": elements
+// returned as hits (and counted in Total) by a query of the must-not-only shape are that
+// shape's class, everything else is keyed by symptom, mapping and index layout.
 func symptomClass(kind string, q *Q, nested bool, layout string) string {
-	if nested && elementHitsShape(q) {
+	if nested && kind != "duplicate-hit" && elementHitsShape(q) {
 		return classElemHits
 	}
 	return kind + ":" + mappingName(nested) + ":" + layout
@@ -693,6 +703,9 @@ func (ck *checker) evalQ(c *corpus, b built, q *Q, score string, want []Tri) {
 				"query_text": q.String(), "score": score, "expected_hit": want[i] == Yes, "observed_hit": got[id],
 				"how": "index the one document under the mapping of props/c20.Mapping(nested) (items, items.subs, tags mapped nested; keyword fields) and run the query"}
 		} else {
+			if class == classAdvance {
+				ck.advQ.Store(q.String(), q)
+			}
 			if class != classAdvance {
 				class += "+only-with-neighbours"
 			}
@@ -714,6 +727,18 @@ func (ck *checker) evalQ(c *corpus, b built, q *Q, score string, want []Tri) {
 				continue
 			}
 			class := symptomClass("non-parent-hit", q, nested, layoutName[layout])
+			if class == classElemHits {
+				explained := false
+				if k := strings.Index(id, "_$"); k > 0 {
+					if pi, ok := c.pos[id[:k]]; ok {
+						ra := rawPredict(q, c.trees[pi])
+						explained = !ra.ok || ra.elementHits
+					}
+				}
+				if !explained {
+					class = "non-parent-hit(not-the-raw-id-answer):" + mappingName(nested) + ":" + layoutName[layout]
+				}
+			}
 			ex := &example{cost: [3]int{q.nodes(), c.internal + 5, len(q.String())}, key: q.String() + score}
 			if ck.bk.improves(class, ex) {
 				// the hit id of an element starts with its parent's id: try that parent alone
@@ -754,7 +779,6 @@ func partQ(r *mc.Run, ck *checker) {
 	for _, q := range qs {
 		q.prep()
 	}
-	ck.qs = qs
 	for _, f := range fams {
 		for _, d := range f.docs {
 			if d.size() <= 4 {
@@ -768,7 +792,7 @@ func partQ(r *mc.Run, ck *checker) {
 		}
 		return ck.small[i].String() < ck.small[j].String()
 	})
-	per := 120
+	per := 140
 	var corpora []*corpus
 	ndocs := 0
 	for _, f := range fams {
@@ -853,33 +877,43 @@ func partQ(r *mc.Run, ck *checker) {
 				r.Cap(fmt.Sprintf("deadline inside query chunk job %d of %d", ji, len(jobs)))
 				return
 			}
-			for _, nested := range []bool{true, false} {
+			have := map[bool]bool{}
+			expect := func(nested bool) []Tri {
 				w := want[nested]
-				for i, t := range j.c.trees {
-					w[i] = Expect(q, t, nested)
+				if !have[nested] {
+					have[nested] = true
+					for i, t := range j.c.trees {
+						w[i] = Expect(q, t, nested)
+					}
 				}
+				return w
 			}
 			for _, b := range j.c.built {
 				// quick: the one-segment nested index sees every query (score alternating), the
 				// many-segment nested index every second, the one-segment flat index every
-				// fourth query; thorough: every index sees
-				// every query, the one-segment ones under both score options
+				// fourth query; thorough: the nested indexes and the one-segment flat index see every
+				// query (one-segment nested under both score options, the others alternating), the
+				// many-segment flat index every second query
 				switch {
 				case quick && b.nested && b.layout == layOne:
-					ck.evalQ(j.c, b, q, []string{"", "none"}[qi%2], want[b.nested])
+					ck.evalQ(j.c, b, q, []string{"", "none"}[qi%2], expect(b.nested))
 				case quick && b.nested:
 					if qi%2 == 0 {
-						ck.evalQ(j.c, b, q, []string{"none", ""}[qi/2%2], want[b.nested])
+						ck.evalQ(j.c, b, q, []string{"none", ""}[qi/2%2], expect(b.nested))
 					}
 				case quick:
 					if qi%4 == 1 && b.layout == layOne {
-						ck.evalQ(j.c, b, q, []string{"", "none"}[qi/4%2], want[b.nested])
+						ck.evalQ(j.c, b, q, []string{"", "none"}[qi/4%2], expect(b.nested))
 					}
-				case b.layout == layOne:
-					ck.evalQ(j.c, b, q, "", want[b.nested])
-					ck.evalQ(j.c, b, q, "none", want[b.nested])
+				case b.nested && b.layout == layOne:
+					ck.evalQ(j.c, b, q, "", expect(b.nested))
+					ck.evalQ(j.c, b, q, "none", expect(b.nested))
+				case b.nested || b.layout == layOne:
+					ck.evalQ(j.c, b, q, []string{"none", ""}[qi%2], expect(b.nested))
 				default:
-					ck.evalQ(j.c, b, q, []string{"none", ""}[qi%2], want[b.nested])
+					if qi%2 == 0 {
+						ck.evalQ(j.c, b, q, []string{"none", ""}[qi/2%2], expect(b.nested))
+					}
 				}
 			}
 		}
@@ -1334,21 +1368,28 @@ func Run(r *mc.Run) {
 		ck.dbg = map[string]int{}
 	}
 	r.Rule("Part Q (E2): every parent document of three cartesian families (A: name × every ordered items array of 0–3 elements over k,v ∈ {x,y}; " +
-		"B: items multiset 0–2 × tags multiset 1–3; C: items of 1–2 elements each with a subs multiset over a,b ∈ {x,y}) " +
-		"× {nested, non-nested} mapping × {one segment, many segments with deleted/updated/re-created parents} × score {default, none} " +
-		"× every conjunction / disjunction (min 0..2) / boolean (every must/should/must-not role assignment, should-min 0..2) over 1–3 term clauses drawn from " +
-		"name, items.k, items.v, items.subs.a, items.subs.b, tags.t, plus every ≤2-clause compound as a clause of 10 larger query forms. " +
-		"Oracle: three-valued nested-document evaluator — a conjunction joins at the deepest nesting level its fields share (single element, recursively), " +
-		"clauses on different arrays / top level combine per parent; counting operators whose clauses all lie on one array are accepted element-level or parent-level; " +
-		"non-nested mapping = per-clause existential. Hits must be live parents, each once, Total = distinct parents, DocCount and match-all = parents. " +
-		"Part H (E1): every index/update/delete history (depth ≤ 3 quick, ≤ 4 thorough) over 2–3 parents × 3 nested versions, one in-memory segment per operation, and on disk " +
-		"with merges held, after ForceMerge, after reopen; after each history DocCount, match-all and 8 nested queries are compared with the reference model state. " +
-		"An outcome is (mapping, root kind, hit-count bucket, three-valued?) for Q and the vector of observation sizes for H.")
+		"B: name × items multiset of 0–2 × tags multiset of 1–3; C: items of 1–2 elements, each k ∈ {x,y} with a subs multiset over a,b ∈ {x,y}, ≤ " +
+		mc.Pick(r, "2", "3") + " second-level elements per parent" + mc.Pick(r, "; quick: one name per A/B array", "") + ") " +
+		"× {nested, non-nested} mapping × {one segment, four batches with a deleted ghost parent and updated / deleted-and-recreated parents} × score {default, none} " +
+		"× query trees over term clauses on name, items.k, items.v, items.subs.a, items.subs.b, tags.t with values {x,y}: every conjunction / disjunction (min 0..2) / " +
+		"boolean (every assignment of the clauses to must/should/must-not, should-min 0..2) over 1 and 2 clauses (ordered), over 3 clauses (" +
+		mc.Pick(r, "conj/disj: every multiset of the 12 leaves; boolean: every multiset of a 6-leaf alphabet", "conj/disj: every ordered triple of the 12 leaves; boolean: every multiset of the 12 leaves") +
+		"), and every 2-clause compound (" + mc.Pick(r, "over the 6-leaf alphabet", "over all 12 leaves") + ") as a clause of 10 larger query forms (conj, disj min 1/2, must/must-not, must/should-min, should-only, must-not-only). " +
+		"Oracle: three-valued nested-document evaluator — a conjunction joins at the deepest nesting level its fields share (single element, recursively for two levels), " +
+		"clauses on different arrays / top level combine per parent; counting operators (disjunction min ≥ 2, boolean parts) whose clauses all lie on one array are accepted element-level or parent-level; " +
+		"non-nested mapping = per-clause existential. Every search: hits are live parents, each once, Total = number of distinct parents; DocCount and match-all = parents. " +
+		"Part H (E1): every index/update/delete history (depth ≤ " + mc.Pick(r, "3", "4") + ") over 2–3 parents × 3 nested-document versions, one in-memory scorch segment per operation, and (depth ≤ 3" +
+		mc.Pick(r, ", 2 parents × 2 versions", ", 3 parents; 2 parents at depth 4") + ") on disk with merges held at EventKindPreMergeCheck, after ForceMerge, after close+reopen; after each history DocCount, match-all and 8 nested queries " +
+		"(term on each array and on the second level, same-element conjunction on both levels, parent+nested, item+sub conjunction, top-level/second-level disjunction) are compared with the reference model state " +
+		"(state key = map parent → version). An outcome is (mapping, root operator, hit-count bucket, three-valued?) for Q and the vector of observation sizes per physical stage for H.")
 	r.Assume("term queries over keyword-analysed fields only: analysis is C19's business, other leaf query types C02's",
 		"nested documents exist on scorch only (upsidedown has no nested reader), so scorch is the only engine",
-		"boolean / min-counted clauses that all address ONE array are accepted under both the element-level and the parent-level reading (the statement fixes neither)",
-		"a disjunction minimum of 0 means 1 (bleve's documented behaviour); should-min 0 next to a must clause makes the should clauses optional",
+		"boolean / min-counted clauses that all address ONE array are accepted under both the element-level and the parent-level reading (the statement fixes neither); a boolean is combined in three steps (must, counted should, must-not) whose level can only move towards the root",
+		"a disjunction minimum of 0 means 1; should-min 0 next to a must clause makes the should clauses optional; a boolean with only must-not clauses is taken from all parents",
+		"the order of documents inside one multi-document batch is decided by bleve's analysis queue, not by the caller: per-class counts can differ by a few units between runs; classes, verdict and the minimal examples (re-confirmed on a one- or two-call index) do not",
+		"collector.PreAllocSizeSkipCap is lowered to 8 for the run (public tuning variable) so that requests sized above the number of index-internal documents stay cheap",
 		"scorch background persister/merger are made deterministic for the disk histories by holding merges at EventKindPreMergeCheck and waiting for CurRootEpoch == LastPersistedEpoch (== LastMergedEpoch)")
+	r.Note("classifier", "a deviation is filed under a known shape class (boolean must-not / counted should / disjunction min>=2 across different nesting paths) only if the query tree contains that shape in a position where it can push the answer in the observed direction AND the observed answer is exactly what combining those clauses by raw index-internal id yields (raw.go); anything else gets its own class")
 
 	// request sizes must exceed the number of index-internal documents (so that nothing is cut
 	// off when elements are wrongly returned); the collector's preallocation is capped through
@@ -1413,11 +1454,10 @@ func (ck *checker) minimiseAdvance() {
 		return
 	}
 	var cand []*Q
-	for _, q := range ck.qs {
-		if advanceShape(q) {
-			cand = append(cand, q)
-		}
-	}
+	ck.advQ.Range(func(_, v any) bool {
+		cand = append(cand, v.(*Q))
+		return true
+	})
 	sort.SliceStable(cand, func(i, j int) bool {
 		a, b := cand[i], cand[j]
 		if a.nodes() != b.nodes() {
@@ -1428,8 +1468,8 @@ func (ck *checker) minimiseAdvance() {
 		}
 		return a.String() < b.String()
 	})
-	if len(cand) > 12 {
-		cand = cand[:12]
+	if len(cand) > 6 {
+		cand = cand[:6]
 	}
 	for _, q := range cand {
 		for _, b := range ck.small {
